@@ -583,6 +583,10 @@ type c20CCase struct {
 	Body   int              `json:"body"`
 	Split  int              `json:"split,omitempty"`
 	Mut    string           `json:"mut,omitempty"`
+	// LateUpdate k > 0: a dynamic table size update (to the size in force, 4096) is put between field k-1 and field k
+	// of the response block. RFC 7541 4.2 only allows it at the beginning of a block: the block is not a valid
+	// header block whatever its fields say, and the response must not be delivered.
+	LateUpdate int `json:"lateupdate,omitempty"`
 }
 
 func c20CRun(c c20CCase) Outcome {
@@ -676,7 +680,15 @@ func c20CRun(c c20CCase) Outcome {
 	if c.Split > 0 {
 		splits = []int{c.Split}
 	}
-	for _, f := range peer.SplitBlock(id, sc.EncodeBlock(nil, c.List), splits, c.Body == 0, 0, false, 0, false, 0) {
+	block := []byte(nil)
+	if k := c.LateUpdate; k > 0 && k < len(c.List) {
+		block = sc.EncodeBlock(nil, c.List[:k])
+		block = append(block, sc.EncodeBlock([]int{4096}, c.List[k:])...)
+		wf, why = false, "dynamic table size update after a field (RFC 7541 4.2)"
+	} else {
+		block = sc.EncodeBlock(nil, c.List)
+	}
+	for _, f := range peer.SplitBlock(id, block, splits, c.Body == 0, 0, false, 0, false, 0) {
 		_ = sc.Write(f)
 	}
 	if c.Body > 0 {
@@ -742,6 +754,7 @@ func c20CGen(t *rapid.T) c20CCase {
 		list = append(list, genFieldSpec(t, "content-length", strconv.Itoa(c.Body)))
 	}
 	var muts []string
+	late := rapid.IntRange(0, 9).Draw(t, "late") == 0
 	nm := rapid.SampledFrom([]int{0, 0, 1, 1, 1, 2}).Draw(t, "nmut")
 	for i := 0; i < nm; i++ {
 		switch rapid.IntRange(0, 9).Draw(t, "mut") {
@@ -797,6 +810,10 @@ func c20CGen(t *rapid.T) c20CCase {
 		}
 	}
 	c.List = list
+	if late && len(list) > 1 {
+		c.LateUpdate = rapid.IntRange(1, len(list)-1).Draw(t, "lateat")
+		muts = append(muts, "late-size-update")
+	}
 	c.Mut = strings.Join(muts, "+")
 	if rapid.IntRange(0, 3).Draw(t, "split") == 0 {
 		c.Split = rapid.IntRange(1, 200).Draw(t, "splitat")
